@@ -55,6 +55,8 @@ pub fn run_case(c: &Value) -> Value {
         }
         "cron_parse" | "cron_hist" => crate::cron::run_case(c),
         "tz_lookup" | "tz_hostile" => crate::tz::run_case(c),
+        "format" | "roundtrip" | "rfc_write" | "rfc_read" | "display" | "fromstr" | "serde" | "parse_any" | "format_any"
+        | "rfc_any" | "fromstr_any" | "serde_any" | "cron_any" => crate::text::run_case(c),
         _ => {
             // every other operation: operands given as abstract values, executed by ops::exec
             let a = crate::ops::val_from_json(&c["a"]);
